@@ -141,15 +141,10 @@ structure St where
 def St.bad (st : St) (s : String) : St :=
   { st with corrOk := false, notes := if st.notes.length < 3 then st.notes ++ [s] else st.notes }
 
-def evWf (e : Ev S) : Bool :=
-  match e with
-  | .msg m => (m.udn.isNone || m.udnHdr == m.udn) && (m.kind == .search || m.ntsOk) && decide (0 ≤ m.maxAge)
-  | _ => true
-
 def beginEv (st : St) (genCfg specCfg : Cfg) (evOf : Cfg → Ev S) : St :=
   let eM := evOf genCfg
   let r := step Parse.ipVersion (Parse.skipHdr genCfg) st.tracker eM
-  let st := if evWf eM then st else st.bad "ill-formed message (harness): _udn differs from the USN's udn / NTS missing"
+  let st := if eM.wf then st else st.bad "ill-formed message (harness): _udn differs from the USN's udn / NTS missing"
   { st with before := st.tracker, tracker := r.1, notif := r.2, evJ := some (evOf specCfg), cur := {} }
 
 def stepLine (genCfg specCfg : Cfg) (st : St) (toks : List String) : St :=
